@@ -25,7 +25,8 @@ for d in sorted(glob.glob(os.path.join(VERIF, "seeded", "*", "meta.json"))):
     rows.append("| %s | %s | %s | %s | %s | `%s` |" % (
         m["id"], m["property"], (m.get("summary") or "").replace("|", "/").replace("\n", " ")[:240],
         (m.get("needs_to_manifest") or "").replace("|", "/").replace("\n", " ")[:220],
-        ("missed at first, caught after strengthening" if first else "caught") + " (" + ", ".join(caught) + ")",
+        ("NOT caught: outside the property's domain, see history" if not caught else
+         ("missed at first, caught after strengthening" if first else "caught") + " (" + ", ".join(caught) + ")"),
         sig.replace("|", "\\|")))
 table = ["<!-- SEED-TABLE-BEGIN -->",
          "%d seeded changes kept; %d were missed by the quick check as it stood when they arrived." % (n, missed), "",
